@@ -344,3 +344,181 @@ func methodOfFuncValue(v ssa.Value) string {
 	}
 	return f.Name()
 }
+
+// TableAlt is one way a conjunction that mentions a constant-table lookup can hold:
+// the literals with the lookup resolved to one entry (or the miss), and the binding of
+// the parameters of entry functions that were called through the table.
+type TableAlt struct {
+	Lits    []ir.NLit
+	Bind    map[ssa.Value]ssa.Value
+	Entries map[*ssa.Lookup]*TableEntry // the entry chosen for each resolved lookup (nil: the miss)
+}
+
+// expandTableFields resolves, case by case, the literals that speak about a
+// constant-table lookup: the `ok` result, comparisons of a field of the looked-up
+// value (`rule.tolerated != nil`), and calls of a function-valued field
+// (`rule.tolerated(upstream)`), which become the called entry function's own return
+// conditions with its parameters bound to the call's arguments. Literals about
+// other things are kept. A table whose entries are functions is a switch whose
+// branches are those functions' bodies.
+func (e *Env) expandTableFields(lits []ir.NLit) []TableAlt {
+	return e.expandTableFieldsX(TableAlt{Lits: lits, Bind: map[ssa.Value]ssa.Value{}, Entries: map[*ssa.Lookup]*TableEntry{}}, 0)
+}
+
+func (e *Env) expandTableFieldsX(in TableAlt, depth int) []TableAlt {
+	if depth > 3 {
+		return []TableAlt{in}
+	}
+	// the first lookup some literal mentions
+	var lk *ssa.Lookup
+	var ents []TableEntry
+	mention := func(v ssa.Value) (*ssa.Lookup, int, string, []TableEntry, bool) {
+		if v == nil {
+			return nil, 0, "", nil, false
+		}
+		if l, w, f, en, ok := e.tableLookup(v); ok {
+			return l, w, f, en, true
+		}
+		// a call of a function-valued field
+		if c, isC := ir.Resolve(v).(*ssa.Call); isC && c.Call.StaticCallee() == nil && !c.Call.IsInvoke() {
+			if l, w, f, en, ok := e.tableLookup(c.Call.Value); ok && w == 0 {
+				return l, 2, f, en, true
+			}
+		}
+		return nil, 0, "", nil, false
+	}
+	for _, l := range in.Lits {
+		for _, v := range []ssa.Value{l.V, l.X, l.Y} {
+			if x, _, _, en, ok := mention(v); ok && lk == nil {
+				if _, done := in.Entries[x]; !done {
+					lk, ents = x, en
+				}
+			}
+		}
+	}
+	if lk == nil {
+		return []TableAlt{in}
+	}
+	var out []TableAlt
+	for _, c := range tableCases(lk, ents) {
+		ents2 := map[*ssa.Lookup]*TableEntry{}
+		for k, v := range in.Entries {
+			ents2[k] = v
+		}
+		ents2[lk] = c.Entry
+		alts := []TableAlt{{Lits: append([]ir.NLit{}, c.Lits...), Bind: copyBind(in.Bind), Entries: ents2}}
+		feasible := true
+		for _, l := range in.Lits {
+			if !feasible {
+				break
+			}
+			handled := false
+			switch l.Kind {
+			case "val":
+				if x, w, f, _, ok := mention(l.V); ok && x == lk {
+					handled = true
+					switch w {
+					case 1: // the ok result
+						if (c.Entry != nil) != l.Pol {
+							feasible = false
+						}
+					case 2: // a call of the entry's function
+						var target *ssa.Function
+						switch t := c.Value(f).(type) {
+						case *ssa.MakeClosure:
+							target, _ = t.Fn.(*ssa.Function)
+						case *ssa.Function:
+							target = t
+						}
+						if target == nil {
+							feasible = false // nil function: the call cannot be reached in this case
+							break
+						}
+						call := ir.Resolve(l.V).(*ssa.Call)
+						inner, okR := e.boolHelperReturns(target, l.Pol)
+						if !okR {
+							handled = false
+							break
+						}
+						var next []TableAlt
+						for _, a := range alts {
+							for _, conj := range inner {
+								nb := copyBind(a.Bind)
+								for i, p := range target.Params {
+									if i < len(call.Call.Args) {
+										nb[p] = call.Call.Args[i]
+									}
+								}
+								next = append(next, TableAlt{Lits: append(append([]ir.NLit{}, a.Lits...), conj...), Bind: nb, Entries: a.Entries})
+							}
+						}
+						if len(inner) == 0 {
+							feasible = false
+						}
+						alts = next
+					default: // a boolean field of the value
+						handled = false
+					}
+				}
+			case "cmp":
+				for _, side := range [2]bool{false, true} {
+					xv, yv := l.X, l.Y
+					if side {
+						xv, yv = l.Y, l.X
+					}
+					x, w, f, _, ok := mention(xv)
+					if !ok || x != lk || w != 0 {
+						continue
+					}
+					val := c.Value(f)
+					// comparison with nil: decided by what the entry holds (the miss yields the zero value)
+					if ir.IsNilConst(yv) {
+						isNil := val == nil || ir.IsNilConst(val)
+						truth := isNil
+						if l.Op == token.NEQ {
+							truth = !isNil
+						}
+						if !truth {
+							feasible = false
+						}
+						handled = true
+						break
+					}
+					if val != nil {
+						nl := l
+						if side {
+							nl.Y = val
+						} else {
+							nl.X = val
+						}
+						for i := range alts {
+							alts[i].Lits = append(alts[i].Lits, nl)
+						}
+						handled = true
+					}
+					break
+				}
+			}
+			if !handled && feasible {
+				for i := range alts {
+					alts[i].Lits = append(alts[i].Lits, l)
+				}
+			}
+		}
+		if !feasible {
+			continue
+		}
+		for _, a := range alts {
+			out = append(out, e.expandTableFieldsX(a, depth+1)...)
+		}
+	}
+	return out
+}
+
+func copyBind(m map[ssa.Value]ssa.Value) map[ssa.Value]ssa.Value {
+	out := map[ssa.Value]ssa.Value{}
+	for k, v := range m {
+		out[k] = v
+	}
+	return out
+}
